@@ -191,8 +191,12 @@ def units():
                    ['opcodes.abstract_opcodes.adr.Adr.execute', 'opcodes.abstract_opcodes.movt.Movt.execute'], misc_cases, IMPORTS,
                    SPEC_IMPORTS + '\nFrom ArmV Require Import Spec.MachineView Spec.Misc.'))
     us.append(Unit('whole_step', ['C01_dp_imm_step', 'C01_add_imm_a1_step', 'C01_add_imm_t1_step', 'C01_add_imm_a1_step_example',
-                                  'C01_add_imm_t1_step_example'],
-                   ['Proofs/StepProofs.v', 'Proofs/StepDP.v', 'Proofs/StepInstances.v', 'Proofs/StepInstancesExample.v'],
+                                  'C01_add_imm_t1_step_example'] +
+                   ['C01_' + c + '_step' for c in ('andImmediateA1', 'eorImmediateA1', 'subImmediateArmA1', 'rsbImmediateA1', 'adcImmediateA1',
+                                                    'sbcImmediateA1', 'rscImmediateA1', 'orrImmediateA1', 'bicImmediateA1',
+                                                    'subImmediateThumbT1', 'addImmediateThumbT2', 'subImmediateThumbT2')],
+                   ['Proofs/StepProofs.v', 'Proofs/StepDP.v', 'Proofs/StepInstances.v', 'Proofs/StepInstancesArm.v',
+                    'Proofs/StepInstancesThumb.v', 'Proofs/StepInstancesExample.v'],
                    ['arm_v6.ArmV6.emulate_cycle', 'arm_v6.ArmV6.execute_instruction', 'arm_v6.ArmV6.increment_pc_if_needed'], None,
                    IMPORTS, SPEC_IMPORTS))
     return us
